@@ -4,7 +4,7 @@ from torchjd.aggregation import IMTLG, ConFIG, AlignedMTL
 
 ASSUMPTIONS = [
     "full row rank precondition: det(J J^T) > 0; IMTL-G on the free Gramian domain (pinv of a non-singular matrix = adj/det, decided by the solver), "
-    "ConFIG entry-level (m = 2, n in {2,3}; pinv of a full-row-rank matrix = A^T (A A^T)^-1), Aligned-MTL on the spectral domain (eigh answered from the eigenbasis, column signs by choice)",
+    "ConFIG entry-level (m = n = 2; pinv of a non-singular matrix = adj/det; 2 x 3 is out of the solver's reach), Aligned-MTL on the spectral domain (eigh answered from the eigenbasis, column signs by choice)",
     "Aligned-MTL's tolerance uses torch.finfo().eps = 2^-23 as in the code; 'bounded condition number' is the code's own rank test lambda > tol on every eigenvalue (assumed for the full-rank clause)",
     "IMTL-G m = 3: the clause is stated for matrices on which the normalisation is defined (v.sum() != 0 up to the code's guard), since no weights summing to one exist otherwise",
     "zero matrices: concrete shapes up to 3 x 3 through the same stubs (pinv(0) = 0; eigh(0) = (0, any orthonormal basis))",
@@ -12,14 +12,15 @@ ASSUMPTIONS = [
 
 
 def bounds(tier):
-    return dict(imtlg_m=[1, 2] + ([3] if tier == "thorough" else []), config=dict(m=2, n=[2] + ([3] if tier == "thorough" else [])), aligned_mtl_m=[1, 2], zero_shapes="m, n in 1..3")
+    return dict(imtlg_m=[1, 2] + ([3] if tier == "thorough" else []), config=dict(m=2, n=[2]), aligned_mtl_m=[1, 2], zero_shapes="m, n in 1..3")
 
 
 def cases(tier):
     cs = []
     for m in ((1, 2, 3) if tier == "thorough" else (1, 2)):
         cs.append(dict(name=f"imtlg_m{m}", fn="imtlg", args=dict(m=m), weight=m ** 3))
-    for n in ((2, 3) if tier == "thorough" else (2,)):
+    cs.append(dict(name="imtlg_m3_any_pinv", fn="imtlg_any", args=dict(m=3), weight=6))
+    for n in (2,):  # ConFIG 2 x 3: z3 returns unknown within 1500 s on the Penrose/closed-form pinv of a 2 x 3 matrix of unit rows (measured): outside the bound
         for pref in (0, 1):
             cs.append(dict(name=f"config_m2n{n}_pref{pref}", fn="config", args=dict(m=2, n=n, pref=pref), weight=10 * n))
     for m in (1, 2):
@@ -62,6 +63,29 @@ def case_imtlg(sp, m):
     l1 = rsum(x.abs() for x in v)
     undefined = (vs.abs() <= R(Fraction(1, 10 ** 12)) * l1).z()
     return [Ob("imtlg_weights_sum_to_one_and_equal_projections", z3.Or(good, z3.And(zero_branch, undefined)), cex)]
+
+
+def case_imtlg_any(sp, m):
+    """m = 3 in the quick tier: pinv is an ARBITRARY kernel (fresh unconstrained matrix X), so that the code around it is decided for all values:
+    with v = X d, the weights are v / sum(v) unless the normalisation is (relatively) undefined, |sum v| <= 1e-12 |v|_1, and only then zero"""
+    set_kernels()
+    G = free_gram(m, nonzero_rows=True)
+    X = [[fresh(f"X{i}{j}") for j in range(m)] for i in range(m)]
+    torch.KERNELS["pinv"] = lambda A: T(X, A.dtype)
+    out = IMTLG()(gram_only(G))
+    w = out._w._flat()
+    nrm = [G[i][i].sqrt() for i in range(m)]
+    v = [rsum(X[i][j] * nrm[j] for j in range(m)) for i in range(m)]
+    vs = rsum(v)
+    def cex(model):
+        return dict(kind="impartial", agg="imtlg", any_pinv=True, **cex_values(model, G=G, weights_model=w))
+    if any(isinstance(x, Sp) for x in w):
+        return [Ob("imtlg_finite_weights", False, cex)]
+    l1 = rsum(x.abs() for x in v)
+    undefined = (vs.abs() <= R(Fraction(1, 10 ** 12)) * l1).z()
+    normalised = z3.And(*[(w[i] * vs).eqz(v[i]) for i in range(m)])
+    zero = z3.And(*[x.eqz(0) for x in w])
+    return [Ob("imtlg_weights_are_v_over_its_sum_unless_undefined", z3.Or(z3.And(z3.Not(undefined), normalised), z3.And(undefined, zero)), cex)]
 
 
 def case_config(sp, m, n, pref):
